@@ -56,9 +56,10 @@ type Gen struct {
 	nonce   uint64
 	Mempool []*wire.MsgTx // announced, not (yet) confirmed on the best chain
 	// weights, set per property
-	TxKindW   []int
-	MaxTxs    int
-	lastStamp time.Time
+	TxKindW     []int
+	MaxTxs      int
+	NullDataPct int
+	lastStamp   time.Time
 }
 
 const (
@@ -74,6 +75,7 @@ const (
 func NewGen(w *World) *Gen {
 	g := &Gen{W: w, utxo: map[*BlockRec]map[wire.OutPoint]*genCoin{}, MaxTxs: 3}
 	g.TxKindW = []int{10, 2, 2, 3, 3, 1}
+	g.NullDataPct = 4
 	g.lastStamp = w.Params.GenesisBlock.Header.Timestamp
 	// two strangers with fixed script hashes
 	for i := 0; i < 2; i++ {
@@ -369,6 +371,19 @@ func (g *Gen) buildTx(t *Tape, view map[wire.OutPoint]*genCoin, inBlock []*genCo
 	}
 	if len(tx.TxOut) == 0 {
 		return nil
+	}
+	if g.NullDataPct > 0 && t.Bool(g.NullDataPct) {
+		// a data-carrier output: legal in blocks (consensus rejects only
+		// non-standard and bare multisig output scripts)
+		g.nonce++
+		data := make([]byte, 8)
+		binary.BigEndian.PutUint64(data, g.nonce)
+		sc, err := txscript.NewScriptBuilder().AddOp(txscript.OP_RETURN).AddData(data).Script()
+		if err != nil {
+			panic(err)
+		}
+		tx.AddTxOut(wire.NewTxOut(0, sc))
+		g.W.Stat("gen.nulldata_output")
 	}
 	g.nonce++
 	tx.LockTime = 0
